@@ -42,7 +42,7 @@ def strategy(tier):
         max_machines=6 if big else 5,
         max_total=36 if big else 25,
         benchmarks=("ft06", "la01") if big else ("ft06",),
-        big_ok=True,
+        big_ok=2,
     )
     step = st.tuples(st.integers(0, 7), st.integers(0, 5), st.integers(0, 7)).map(list)
     seq = st.fixed_dictionaries(
